@@ -27,11 +27,11 @@ for f in sorted(glob.glob(os.path.join(R, "seeded", "C*", "meta.json"))):
 out = ["## 8. Which checks catch which changes (as built)", "",
 "### 8.1 Changes written by independent sub-agents",
 "",
-"In each of three rounds twenty sub-agents were each given the text of one property and a scratch git worktree of /repo",
+"In each of several rounds twenty sub-agents were each given the text of one property and a scratch git worktree of /repo",
 "(nothing from /verif) and asked for two changes that break the property, still compile and pass the",
 "279 tests, and need something specific to manifest; from the second round on they were also given the one-line",
 "summaries of the earlier changes to the same property and told to use other mechanisms (names `C<nn>-m<i>`: first",
-"round, `-r2m<i>`, `-r3m<i>`: later rounds). Every change below was re-confirmed by",
+"round, `-r2m<i>`, `-r3m<i>`, ...: later rounds). Every change below was re-confirmed by",
 "`tools/ingest_seeded.sh` on a scratch copy (applies to HEAD, builds, test-suite passes, the agent's",
 "demonstration passes without and fails with the change) before the checks were run against it with",
 "`VERIF_REPO`; patch, demonstration, note and `meta.json` are under `seeded/<name>/`. 'first pass' is the",
@@ -47,7 +47,8 @@ for f in sorted(glob.glob(os.path.join(R, "seeded", "C*", "meta.json"))):
     if m["breaks_property"] in m["caught_by"]:
         n_own += 1
 def rnd(name):
-    return 2 if "-r2m" in name else 3 if "-r3m" in name else 1
+    m = re.search(r"-r(\d)m", name)
+    return int(m.group(1)) if m else 1
 per = {}
 for k, v in pass1.items():
     c = per.setdefault(rnd(k), [0, 0])
@@ -69,6 +70,8 @@ out += ["What the misses of the first round had in common, and what was added (s
 "Second round (10 missed at first): *histories* rather than single steps - bookkeeping that leaks a little on every `break` / `continue` / `return` / `next` and only fails after 50 000 of them (C07, C20: long runs with results in closed form); a limit applied to the distance from the current end instead of the index (C20); a signal raised from a loop *header* (C07); `-o` onto an existing longer file / in place, and escape-looking text behind an escaped backslash (C04); compound divide by zero positioned through a synthesised token (C12); sort stability only beyond 12 elements (C15); a later alternative that would match too, empty block bodies (C19); crashes on cyclic / aliased values handed to value-walking operations, which the sampled generator reached too rarely (C01).",
 "",
 "Third round (19 missed at first): *two routes to the same thing* - an operator site re-entered through recursion while its other operand is pending (C05), match bindings read after a recursive call through the same match, argument names equal to the callee's parameter names in another order (C08), cycle members reachable from the printed value by their own routes (C17), a format or divisor site that worked on the first record and fails on the second (C11), one source position holding different literals in two programs of one process (C10); *stores where only reads had been tried* - into `$` in BEGIN, into `$index`, into results of `pluck` and `sort`, through paths keyed by booleans / null / unset (C02, C16, C15, C01); *conditions with effects* - else-if chains, loop bounds that move (C07); *raw bytes* - CR LF inside literals (C13, C14), one- and two-byte inputs (C01), values larger than any buffer and named pipes (C03). The missed change C09-r3m1 exposed a flaw of the reference model itself (every array passed to any native call was treated as shared, so most resizing steps of C15's histories were discarded as 'not stated'); correcting it more than doubled C15's effective workload.",
+"",
+"Fourth round (22 missed at first; the agents were told to prefer triggers that a generator of typical programs rarely produces): *sizes and counts just past a threshold* - 13 rules, 32-element arrays, pad counts that are multiples of 64, 65 536 frames, a value at byte offset 512 of the input, 19-digit widths (C02, C15, C18, C08, C04, C20); *values that are null by absence or look like something else* - a missing member compared with 0, a pushed `b[9]`, a string that spells a number given to %f, dotted pluck keys, a regex held in a variable (C02, C15, C18, C16, C12); *receivers and operands that were never stored* - `s[0].upper()`, a number literal with a method suffix after `*`, `!x is T` (C16, C06); *program shapes* - BEGIN-only programs on damaged input, comma-less object literals, body-less rules around method-only changes, prints whose arguments print (C03, C13, C17); *short reads* - the same bytes in reads of one byte (C10). One agent reported, while probing, a crash that was already in the tree (F25, section 5): none of my checks had a call whose argument assigns to its own receiver.",
 "",
 "### 8.2 The reverse of every repair",
 "",
